@@ -396,6 +396,13 @@ def rule_D_calls(toks, au, names):
 
 # ------------------------------------------------------------------ rule A
 def rule_A(toks, au):
+    # tokio::join!(a, b) (await both to completion) -> vx_join2(a, b)
+    while True:
+        z = find_seq(toks, ["tokio", ":", ":", "join", "!", "("])
+        if z < 0:
+            break
+        au.note("A", "tokio::join!(a, b) -> vx_join2(a, b)")
+        toks[z:z + 5] = [Tok("id", "vx_join2", toks[z].ws)]
     out, i, n = [], 0, len(toks)
     while i < n:
         t = toks[i]
